@@ -28,7 +28,7 @@ func main() {
 	})
 	dbreplay.Main(rep, args, "C04", []dbreplay.Stage{
 		{Name: "rb-3pg-3ops-exhaustive", Cfg: "MC_DBFile_rb.cfg", Timeout: 10 * time.Minute, MaxKeep: core.Pick(args, 400, 0)},
-		{Name: "wal-3pg-4ops-exhaustive", Cfg: "MC_DBFile_wal.cfg", Timeout: 15 * time.Minute, MaxKeep: core.Pick(args, 1200, 10000), Always: []string{"LCkpt"}},
+		{Name: "wal-3pg-4ops-exhaustive", Cfg: core.Pick(args, "MC_DBFile_wal.cfg", "MC_DBFile_wal_edge.cfg"), Timeout: 15 * time.Minute, MaxKeep: core.Pick(args, 1200, 10000), Always: []string{"LCkpt"}},
 		{Name: "rb-beyond-3pg-3ops-exhaustive", Cfg: "MC_DBFile_rb_beyond.cfg", Timeout: 10 * time.Minute, MaxKeep: core.Pick(args, 400, 0)},
 		{Name: "rb-drop-recreate-3pg-4ops-exhaustive", Cfg: "MC_DBFile_drop.cfg", Timeout: 10 * time.Minute, MaxKeep: core.Pick(args, 500, 0)},
 		{Name: "rb-block-edges-3pg-3ops", Cfg: "MC_DBFile_rb_L3.cfg", Timeout: 10 * time.Minute, MaxKeep: core.Pick(args, 300, 0), Layouts: []sim.Layout{sim.L3(512), sim.L2(512)}},
